@@ -368,3 +368,4 @@ import checks_life  # noqa: E402,F401
 import checks_loss  # noqa: E402,F401
 import checks_http  # noqa: E402,F401
 import checks_ws  # noqa: E402,F401
+import checks_locks  # noqa: E402,F401
